@@ -14,6 +14,19 @@ from .uper_functions import functions
 from ...codecs import uper
 
 
+def format_number(value):
+    """Format given integer as a C constant of a 64 bits type.
+
+    """
+
+    if value == -9223372036854775808:
+        return '(-9223372036854775807 - 1)'
+    elif value > 9223372036854775807:
+        return '{}u'.format(value)
+    else:
+        return str(value)
+
+
 def does_bits_match_range(number_of_bits, minimum, maximum):
     return 2 ** number_of_bits == (maximum - minimum + 1)
 
@@ -35,6 +48,8 @@ class _Generator(Generator):
             return str(type_.default).lower()
         elif isinstance(type_, uper.Enumerated):
             return self.format_default_enumerated(type_)
+        elif isinstance(type_, uper.Integer):
+            return format_number(type_.default)
         else:
             return str(type_.default)
 
@@ -148,16 +163,19 @@ class _Generator(Generator):
                 [
                     'encoder_append_non_negative_binary_integer(',
                     '    encoder_p,',
-                    '    (uint64_t)(src_p->{} - {}),'.format(location, checker.minimum),
+                    '    (uint64_t)src_p->{} - (uint64_t){},'.format(
+                        location,
+                        format_number(checker.minimum)),
                     '    {});'.format(type_.number_of_bits)
                 ],
                 [
-                    'dst_p->{} = ({})decoder_read_non_negative_binary_integer('.format(
+                    'dst_p->{} = ({})(decoder_read_non_negative_binary_integer('.format(
                         location,
                         type_name),
                     '    decoder_p,',
-                    '    {});'.format(type_.number_of_bits),
-                    'dst_p->{} += {};'.format(location, checker.minimum)
+                    '    {}) + (uint64_t){});'.format(
+                        type_.number_of_bits,
+                        format_number(checker.minimum))
                 ]
             )
 
